@@ -184,8 +184,8 @@ def not_a_reference_edges(b, within=None):
 
 def check_visited_set(F, b, scc_members, ctx_desc=""):
     """HashSet guard: an `insert` dominates every call into the SCC and a `contains` on the same set dominates the insert."""
-    inserts = [c for c in b.calls if re.search(r"HashSet::<.*>::insert$", c.fn or c.name)]
-    contains = [c for c in b.calls if re.search(r"HashSet::<.*>::contains$", c.fn or c.name)]
+    inserts = [c for c in b.calls if re.search(r"(HashSet|BTreeSet)::<.*>::insert$", c.fn or c.name)]
+    contains = [c for c in b.calls if re.search(r"(HashSet|BTreeSet)::<.*>::contains$", c.fn or c.name)]
     rec = [c for c in b.calls if c.local and c.name in scc_members]
     # calls through closures defined in this body count as well
     if not rec:
@@ -217,7 +217,7 @@ def check_visited_set(F, b, scc_members, ctx_desc=""):
     for pth in sorted(scc_members):
         mb = F.bodies.get(pth)
         for c in (mb.calls if mb is not None else []):
-            if re.search(r"HashSet::<.*>::(remove|take|clear|retain|drain)$", c.fn or c.name):
+            if re.search(r"(HashSet|BTreeSet)::<.*>::(remove|take|clear|retain|drain|pop_first|pop_last|split_off|append)$", c.fn or c.name):
                 return False, "the visited set shrinks again (%s at line %d in %s): it bounds the depth of the walk but no longer its size" % ((c.fn or c.name).rsplit("::", 1)[-1], c.ln, F.canon_of(mb))
     return True, "insert dominates %d recursive call(s); contains precedes insert; the set only grows" % len(rec)
 
@@ -235,7 +235,7 @@ def check_counter(F, b, callee_suffix, param_name, also=()):
         pos = (c.bb, 10**6)
         why = None
         for a_ in c.args:
-            arg = env.op_term(a_, pos)
+            arg = env.op_term(a_, pos, 12)
             # captured or direct parameter
             pn = param_name
             for nm, pl in bb_.upvars:
@@ -299,7 +299,7 @@ def check_counter_sites(F, comp, spec):
                 continue
             j = idx[c.name]
             pos = (c.bb, 10**6)
-            arg = env.op_term(c.args[j], pos)
+            arg = env.op_term(c.args[j], pos, 12)
             # the budget as this body sees it: its own parameter, or (in a closure) the captured variable of that name
             mine = {param} | {env.place_term(pl, pos).base for nm, pl in cb.upvars if nm == param}
 
@@ -350,6 +350,8 @@ def check_counter_sites(F, comp, spec):
                     k2 = lib.trace_operand(cb, c.args[idx[c.name]]) if hasattr(lib, "trace_operand") else None
                     kk = op_const(k2) if k2 is not None else None
                     v = const_int(kk) if kk is not None else None
+                if v is None and re.match(r"^\d+$", cb.oname(c.args[idx[c.name]], 3)):
+                    v = int(cb.oname(c.args[idx[c.name]], 3))      # a named constant, possibly inside a wrapper type, renders as its value
                 if v is None or v > spec.get("max_start", 1000):
                     return False, "%s enters the cycle at %s with a budget that is not a constant <= %d (%s)" % (F.canon_of(cb), F.canon_of(F.bodies[c.name]), spec.get("max_start", 1000), cb.oname(c.args[idx[c.name]], 3))
                 starts.append(v)
@@ -577,7 +579,7 @@ def check_visited_loop(b, head, blocks, setname=None):
     if setname is None:
         names = []
         for c in b.calls:
-            if c.bb in blocks and re.search(r"HashSet::<.*>::insert$", c.fn or c.name):
+            if c.bb in blocks and re.search(r"(HashSet|BTreeSet)::<.*>::insert$", c.fn or c.name):
                 t = b.oname(c.args[0], 2).lstrip("&*")
                 if t not in names:
                     names.append(t)
@@ -588,8 +590,8 @@ def check_visited_loop(b, head, blocks, setname=None):
                 return ok, how
             why = how
         return False, why
-    ins = [c for c in b.calls if c.bb in blocks and re.search(r"HashSet::<.*>::insert$", c.fn or c.name) and setname in b.oname(c.args[0], 2)]
-    con = [c for c in b.calls if c.bb in blocks and re.search(r"HashSet::<.*>::contains$", c.fn or c.name) and setname in b.oname(c.args[0], 2)]
+    ins = [c for c in b.calls if c.bb in blocks and re.search(r"(HashSet|BTreeSet)::<.*>::insert$", c.fn or c.name) and setname in b.oname(c.args[0], 2)]
+    con = [c for c in b.calls if c.bb in blocks and re.search(r"(HashSet|BTreeSet)::<.*>::contains$", c.fn or c.name) and setname in b.oname(c.args[0], 2)]
     if ins and not con:
         # `if !seen.insert(x) { break }`: insert answers whether the value was new; the loop is left when it was not
         if not every_cycle_passes(b, head, blocks, [c.bb for c in ins] + sorted(not_a_reference_edges(b, blocks))):
@@ -954,6 +956,10 @@ def check_counter_init(F, spec):
                 continue
             n += 1
             t = b.oname(fields[spec["field"]], 5)
+            if not rx.search(t):
+                t = b.sname(fields[spec["field"]], 5)     # a local that holds the value, built once, stands for its expression
+            if not rx.search(t) and rx.search(re.sub(r" as (u64|u128)$", "", t)) and re.match(r"^len\(", t):
+                t = re.sub(r" as (u64|u128)$", "", t)       # a length (usize) kept in a wider counter is the same number
             if not rx.search(t):
                 return False, "%s.%s is initialised with `%s` in %s, not with a value bounded by the document size" % (spec["adt"], spec["field"], t, F.canon_of(b))
     if n < spec.get("min", 1):
